@@ -1,6 +1,7 @@
 CONSTANTS Urls <- UrlsC
           Texts <- TextsC
           Cfgs <- OneCfg
+          IdentsAccumulate = FALSE
           ForgetIdentRecord = TRUE
           ConfigRebuilds = TRUE
           MaxMsgs = 4
